@@ -238,8 +238,11 @@ class World:
 
     def clear(s, n):
         raws = [x for x in n.walk() if x.hook == "vmciRaw"]
+        slot0 = s.find(s.root, "file.set.0.fd")
         for x in n.walk():
             x.isset = False
+            if x is slot0:
+                s.find(s.root, "file.fd").isset = False     # file.fd is the legacy name of file.set.0.fd: cleared with it
         for r in raws:
             s.dealloc_vmci(r.parent)
 
@@ -326,6 +329,8 @@ class World:
                 for k in [k for k in fs.kids.values() if k.ty == "dir" and int(k.name) >= new]:
                     kill(k); del fs.kids[k.name]
         s.plain(n, tok, True)
+        if not skip and n.hook == "numFiles" and int(tok[4:]) != 1:
+            s.find(s.root, "file.fd").isset = False         # a set that is not one file has no legacy descriptor
         if not skip:
             if n.hook == "utsRelease":
                 # linux.version_code is derived from the release string: every getter answers KERNEL_VERSION(a, b, c)
@@ -358,9 +363,9 @@ class World:
     def open(s, slot, prov, failed=False):
         s.mod += 1
         fs = s.root.kids["file"].kids["set"]
-        for d in fs.kids.values():
+        for d in list(fs.kids.values()):
             if d.ty == "dir":
-                d.kids["fd"].isset = False
+                s.clear(d.kids["fd"])
         s.set(fs.kids["number"], "num:1")
         s.plain(fs.kids["0"].kids["fd"], "num:%d" % (100 + slot), True)
         # open_dump: the file cache counters and the mmap policy are (re)attached to the new file cache
@@ -387,6 +392,14 @@ class World:
         if failed:
             s.clear_volatile()       # open_dump tears a failed probe down: volatile attributes are cleared once more
         s.opened = True
+
+    def fdopen(s, slot, prov):
+        """kdump_set_attr(file.fd = descriptor), the legacy way to open: the value is stored (persistent), its hook opens a
+        one-file set; afterwards file.fd and file.set.0.fd are two names of one value"""
+        ffd = s.find(s.root, "file.fd")
+        s.plain(ffd, "num:%d" % (100 + slot), True)
+        s.open(slot, prov)
+        ffd.isset = True
 
 
 class View:
@@ -802,6 +815,8 @@ class Hist:
                 s.step_nfoom(c, v)
             elif r0 < 0.024:
                 s.step_derived(c, v)
+            elif r0 < 0.029 and s.step_filefd(c, v):
+                pass
             else:
                 s.step_appcpu(c, v)
             return
@@ -1096,6 +1111,50 @@ class Hist:
                 s.fail = (len(s.ops) - 1, "iteration of 'linux' did not stop at version_code although it has a value", None)
                 s.stop = True
         s.emit("get %d linux.version_code" % c, "get " + s.exp_get(vc), "exact")
+
+    def step_filefd(s, c, v):
+        """the dump is opened the legacy way (file.fd set by the application; possibly with slots of a file set already there),
+        the two names of the descriptor are read by path and by reference, then the set is emptied / grown / closed slot by slot:
+        whenever file.set.0.fd is gone or the set is not one file, file.fd reports no value either"""
+        rng, W = s.rng, s.world
+        fs = [f for f in s.openable() if s.fileinfo[f][0] == "ok"]
+        if W.opened or not fs:
+            return False
+        f = rng.choice(fs)
+        num, ffd = World.find(W.root, "file.set.number"), World.find(W.root, "file.fd")
+        pre = rng.choice([None, None, 1, 2, 3])
+        if pre is not None:
+            s.emit("nfiles %d %d" % (c, pre), "nfiles " + W.set(num, "num:%d" % pre), "exact")
+        k = rng.randint(0, 15)
+        if rng.random() < 0.5:
+            s.emit("ref %d %d file.fd" % (c, k), "ref ok", "exact"); s.refs[k] = ffd
+        st, prov = s.fileinfo[f]
+        for p, tok, fl in prov:
+            s.emit("prov %s %s %s" % (p, tok, fl), None, "quiet")
+        s.emit("openst %s" % st, None, "quiet")
+        W.fdopen(c, prov)
+        s.emit("fdopen %d %s" % (c, s.files[f]), "fdopen ok", "exact", "open#%d" % f)
+        def look():
+            for q in rng.sample(["file.fd", "file.set.0.fd", "file.set.number", "file.set.0"], 3):
+                s.emit("get %d %s" % (c, q), "get " + s.exp_get(World.find(W.root, q)), "exact")
+            if s.refs.get(k) is ffd:
+                s.emit("rget %d %d" % (c, k), "rget " + s.exp_get(ffd), "exact")
+        look()
+        s.emit("dump %d" % c, s.exp_dump(), "dump")
+        how = rng.choice(["empty", "empty", "grow", "clearslot", "none"])
+        if how == "empty":
+            s.emit("nfiles %d 0" % c, "nfiles " + W.set(num, "num:0"), "exact")       # the documented way to close the dump
+        elif how == "grow":
+            N = rng.choice([2, 3])
+            s.emit("nfiles %d %d" % (c, N), "nfiles " + W.set(num, "num:%d" % N), "exact")
+        elif how == "clearslot":
+            q = rng.choice(["file.set.0.fd", "file.set.0"])
+            W.set(World.find(W.root, q), "nil")
+            s.emit("set %d %s nil" % (c, q), "set ok", "exact")
+        look()
+        s.emit("dump %d" % c, s.exp_dump(), "dump")
+        s.kinds["filefd-" + how] = s.kinds.get("filefd-" + how, 0) + 1
+        return True
 
     def step_appcpu(s, c, v):
         """cpu.number is set by the application; a file without CPU notes is opened in the same context: the value persists
@@ -1411,6 +1470,11 @@ def run(R):
         h = Hist(R, T, files, fileinfo, hid, blobctr, io)
         n = R.rng.randint(nops // 2, nops)
         guard = 0
+        if hid % 8 == 5:
+            # every eighth history starts by opening its dump the legacy way (file.fd), after a few random steps on the fresh context
+            for _ in range(R.rng.randint(0, 6)):
+                h.step()
+            h.step_filefd(0, h.views[0])
         while h.nq < n and not h.stop and guard < 20 * n:
             h.step(); guard += 1
         h.finish()
